@@ -57,10 +57,32 @@ def bits_rules(facts, rep):
         good = e[0] == "bin" and e[1] == "BitAnd" and e[3][0] == "const" and e[2][0] == "arg" and e[2][2] == word + "part"
         mask = e[3][2] if good else None
         good = good and mask == want_mask and shr == low and shl == scale and off == offset
-        if mask is not None:
+        if mask is not None and good:
             if masks[word] & mask:
                 good = False
             masks[word] |= mask
+        if not good:
+            # however the extraction is spelled (mask then shift, shift then mask, no mask on the top field): it is a function of one
+            # 16-bit word -- evaluate the reconstructed expression on all 65536 values against the layout's definition
+            from engine.expr import eval_int
+            full = norm(ex.operand(flds[name], (bi, si)))
+            argn = word + "part"
+            okv = True
+            for w_ in range(1 << 16):
+                got = eval_int(full, {argn: w_, "datepart": w_ if argn == "datepart" else 0, "timepart": w_ if argn == "timepart" else 0})
+                want = ((((w_ >> low) & ((1 << width) - 1)) << scale) + offset)
+                if name != "year":
+                    want &= 0xFF
+                if got is None or got != want:
+                    okv = False
+                    break
+            # ... and it must not depend on the other word
+            if okv:
+                other = "datepart" if argn == "timepart" else "timepart"
+                okv = all(eval_int(full, {argn: 0x5a5a, other: o_}) == eval_int(full, {argn: 0x5a5a, other: 0}) for o_ in (0, 1, 0xFFFF, 0x1234))
+            good = okv
+            if good:
+                masks[word] |= want_mask
         ok &= rep.check(good, rule, "unpack:%s" % name, where(fm, s["span"]),
                         "%s = ((%spart & %#06x) >> %d)%s%s" % (name, word, want_mask, low, " << %d" % scale if scale else "", " + %d" % offset if offset else ""),
                         "from_msdos computes %s as %s; MS-DOS layout: bits %d..%d of the %s word%s" % (
@@ -271,6 +293,8 @@ def run(ctx, rep):
     from rules.C01 import msdos_arg_order
     msdos_arg_order(facts, rep, "C18-ARGS")
     from rules.C14 import meta_rules
+    from rules.C03 import fieldwriters_rules
+    fieldwriters_rules(facts, rep)     # reported as C18/C03-FIELDWRITERS: nothing replaces the parsed DOS timestamp afterwards
     meta_rules(facts, rep)             # reported as C18/C14-META: a raw copy re-writes the source's DOS words whatever they are (no validity filter)
     panic_rule(ctx, rep, "C18-PANIC", facts, is_time_root, void_rules=void)
     rep.floor("C18-PANIC", 10)
